@@ -18,10 +18,12 @@ package main
 import (
 	"encoding/hex"
 	"fmt"
+	"math"
 	"os"
 	"sort"
 	"strconv"
 	"strings"
+	"time"
 
 	"github.com/kaptinlin/gozod"
 	"github.com/kaptinlin/gozod/core"
@@ -32,10 +34,18 @@ import (
 
 func main() {
 	cfg := hx.ParseFlags()
-	if *genPath != "" {
-		if err := runGen(*genPath); err != nil {
-			fmt.Fprintln(os.Stderr, "translator error:", err)
-			os.Exit(3)
+	if *genPath != "" || *genPathsPath != "" {
+		if *genPath != "" {
+			if err := runGen(*genPath); err != nil {
+				fmt.Fprintln(os.Stderr, "translator error:", err)
+				os.Exit(3)
+			}
+		}
+		if *genPathsPath != "" {
+			if err := runGenPaths(*genPathsPath); err != nil {
+				fmt.Fprintln(os.Stderr, "path-type translator error:", err)
+				os.Exit(3)
+			}
 		}
 		return
 	}
@@ -64,8 +74,9 @@ func isKnown(c core.IssueCode) bool {
 
 func hx_(s string) string { return hex.EncodeToString([]byte(s)) }
 
-// encIssue appends the tokens of one issue; ok=false when the issue cannot be expressed
-// (a path element that is neither string nor non-negative int).
+// encIssue appends the tokens of one issue.  A path element is a string (k<hex>), an int (i<n> when ≥ 0,
+// j<n> for −n), or a value of any other dynamic type, which the formatters read through fmt's %v only:
+// o<hex of that text>.
 func encIssue(b *strings.Builder, is core.ZodIssue) bool {
 	b.WriteString(" I ")
 	if isKnown(is.Code) {
@@ -80,11 +91,12 @@ func encIssue(b *strings.Builder, is core.ZodIssue) bool {
 			b.WriteString(" k" + hx_(v))
 		case int:
 			if v < 0 {
-				return false
+				b.WriteString(" j" + strconv.FormatUint(uint64(-int64(v)), 10))
+			} else {
+				b.WriteString(" i" + strconv.Itoa(v))
 			}
-			b.WriteString(" i" + strconv.Itoa(v))
 		default:
-			return false
+			b.WriteString(" o" + hx_(fmt.Sprintf("%v", el)))
 		}
 	}
 	b.WriteString(" m" + hx_(is.Message))
@@ -108,7 +120,7 @@ func encIssue(b *strings.Builder, is core.ZodIssue) bool {
 
 func encIssues(list []core.ZodIssue) (string, bool) {
 	var b strings.Builder
-	b.WriteString("c19 " + strconv.Itoa(len(list)))
+	b.WriteString("c19 " + cfgToken + " " + strconv.Itoa(len(list)))
 	for _, x := range list {
 		if !encIssue(&b, x) {
 			return "", false
@@ -186,12 +198,48 @@ func rFmt(m gozod.ZodFormattedError) string {
 	return "M" + errs + "{" + strings.Join(ents, ";") + "}"
 }
 
+// lastPanic keeps the text of the most recent panic of a guarded call (for the op comment).
+var lastPanic string
+
 func guarded(f func() string) string {
 	var out string
 	if p := hx.Safely(func() { out = f() }); p != "" {
-		return "panic:" + strings.ReplaceAll(strings.ReplaceAll(p, " ", "_"), "\t", "_")
+		if i := strings.IndexByte(p, '\n'); i >= 0 {
+			p = p[:i]
+		}
+		lastPanic = p
+		return "panic"
 	}
 	return out
+}
+
+// ---------------------------------------------------------------- which pending fixes the tree carries
+//
+// Four fixed probes; the answer is named in every op line (`cfg=<treeNeg><treeOther><dotOther><nilSafe>`, 1 = fixed)
+// and selects the transcription the Lean driver runs (Model/IssuesGo.lean `Cfg`).  The spec oracle does not read it.
+
+var cfgToken = "cfg=0000"
+
+func probeCfg() {
+	bit := func(ok bool) string {
+		if ok {
+			return "1"
+		}
+		return "0"
+	}
+	one := func(el any) *gozod.ZodError {
+		return &gozod.ZodError{Issues: []core.ZodIssue{mk(core.Custom, []any{el}, "m")}}
+	}
+	treeNeg := guarded(func() string { return rTree(gozod.TreeifyError(one(-1))) }) != "panic"
+	treeOther := guarded(func() string {
+		t := gozod.TreeifyError(one(1.5))
+		return strconv.Itoa(len(t.Errors))
+	}) == "0"
+	dotOther := guarded(func() string { return gozod.ToDotPath([]any{1.5}) }) != "[1.5]"
+	var nz *gozod.ZodError
+	nilSafe := guarded(func() string { return rFlat(gozod.FlattenError(nz)) }) != "panic"
+	cfgToken = "cfg=" + bit(treeNeg) + bit(treeOther) + bit(dotOther) + bit(nilSafe)
+	lastPanic = ""
 }
 
 func observe(ze *gozod.ZodError) string {
@@ -308,12 +356,36 @@ var keyPool = []string{
 var idxPool = []int{0, 0, 1, 1, 2, 3, 5, 7, 12, 19}
 var otherCodes = []core.IssueCode{"my_code", "nonoptional", "", "invalid type", "INVALID_TYPE"}
 
+// path elements that are neither string nor non-negative int: the library itself files map keys and set
+// elements of any comparable type in paths (types/map.go, types/set.go), and users build paths freely.
+type namedKey string
+type point struct{ X, Y int }
+type stringer struct{ s string }
+
+func (s stringer) String() string { return s.s }
+
+var exoticPool = []any{
+	-1, -1, -2, -7, -12, math.MinInt64 + 1, // negative ints
+	int64(0), int64(1), int64(-1), int8(3), uint(0), uint8(2), uint64(7), // other integer types
+	1.5, 0.0, -2.5, float32(2), math.Inf(1), 1e21, // floats
+	true, false, nil, 'a', complex(1, 2),
+	namedKey("a"), namedKey("0"), namedKey("a.b"), namedKey(""), namedKey("_errors"), namedKey("\"a.b\""), // named string types
+	point{1, 2}, [2]int{0, 1}, struct{}{}, time.Second, // structs, arrays, Stringers
+	stringer{"a"}, stringer{"0"}, stringer{"\"k\""}, stringer{"_errors"}, stringer{"-1"}, stringer{"x]"},
+	errString("boom"),
+}
+
+type errString string
+
+func (e errString) Error() string { return string(e) }
+
 type synth struct {
 	r        *hx.Rng
 	next     int
 	dup      bool
 	odd      bool
 	blank    bool
+	exotic   bool // this list draws path elements of other dynamic types too (a fifth of the lists)
 	maxDepth int // nesting depth of wrapper issues: 3, or 6 for a tenth of the lists
 }
 
@@ -335,7 +407,9 @@ func (g *synth) path(maxLen int) []any {
 	n := g.r.Intn(maxLen + 1)
 	p := make([]any, 0, n)
 	for i := 0; i < n; i++ {
-		if g.r.Chance(35) {
+		if g.exotic && g.r.Chance(35) {
+			p = append(p, hx.Pick(g.r, exoticPool))
+		} else if g.r.Chance(35) {
 			p = append(p, hx.Pick(g.r, idxPool))
 		} else if g.r.Chance(60) {
 			p = append(p, keyPool[g.r.Intn(7)])
@@ -400,6 +474,7 @@ func (g *synth) list() []core.ZodIssue {
 	g.dup = g.r.Chance(25)
 	g.odd = g.r.Chance(25)
 	g.blank = g.r.Chance(15)
+	g.exotic = g.r.Chance(20)
 	g.maxDepth = 3
 	if g.r.Chance(10) {
 		g.maxDepth = 6
@@ -540,7 +615,14 @@ func (g *schemaGen) schema(depth int) (core.ZodSchema, string) {
 		return types.Record(gozod.String().Min(2), s), "Record(String().Min(2)," + d + ")"
 	case 7:
 		s, d := g.schema(depth + 1)
-		switch g.r.Intn(4) {
+		switch g.r.Intn(6) {
+		case 4:
+			ks, kd := hx.Pick(g.r, []core.ZodSchema{gozod.Int(), gozod.Float64(), gozod.Bool(), gozod.Any(), gozod.String(), gozod.Int64()}), ""
+			kd = fmt.Sprintf("%T", ks)
+			return gozod.Map(ks, s), "Map(" + kd + "," + d + ")"
+		case 5:
+			l, ld := g.leaf()
+			return gozod.Set[any](l), "Set[any](" + ld + ")"
 		case 0:
 			return gozod.Map(gozod.String(), s), "Map(String()," + d + ")"
 		case 1:
@@ -560,12 +642,41 @@ func (g *schemaGen) schema(depth int) (core.ZodSchema, string) {
 	}
 }
 
+// keys of map[any]any / elements of map[any]struct{} values: the library files them in issue paths as they are
+var anyKeyPool = []any{"a", "b", "0", "_errors", 0, 1, 2, -1, -3, int64(0), int64(5), uint8(1), 1.5, -0.5, true, false,
+	namedKey("a"), point{1, 2}, [2]int{0, 1}, time.Second, stringer{"a"}, 'x'}
+
 func (g *schemaGen) value(depth int) (any, string) {
-	k := g.r.Intn(10)
+	k := g.r.Intn(12)
 	if depth >= 3 && k >= 6 {
 		k = g.r.Intn(6)
 	}
 	switch k {
+	case 10:
+		m := map[any]any{}
+		var ds []string
+		for c := 1 + g.r.Intn(3); c > 0; c-- {
+			key := hx.Pick(g.r, anyKeyPool)
+			if _, dup := m[key]; dup {
+				continue
+			}
+			v, d := g.value(depth + 1)
+			m[key] = v
+			ds = append(ds, fmt.Sprintf("%#v:%s", key, d))
+		}
+		return m, "map[any]any{" + strings.Join(ds, ",") + "}"
+	case 11:
+		m := map[any]struct{}{}
+		var ds []string
+		for c := 1 + g.r.Intn(3); c > 0; c-- {
+			key := hx.Pick(g.r, anyKeyPool)
+			m[key] = struct{}{}
+		}
+		for key := range m {
+			ds = append(ds, fmt.Sprintf("%#v", key))
+		}
+		sort.Strings(ds)
+		return m, "map[any]struct{}{" + strings.Join(ds, ",") + "}"
 	case 0:
 		s := hx.Pick(g.r, []string{"", "x", "ab", "hello", "a@b.co", "ABC", "a", "b"})
 		return s, strconv.Quote(s)
@@ -631,14 +742,15 @@ func run(c hx.Config) error {
 		if !strings.HasSuffix(how, "corpus") && r.Chance(45) {
 			variant = hx.Pick(r, variants[1:])
 		}
+		lastPanic = ""
 		mapped, obs := observeVia(variant, ze)
 		if mapped == nil {
 			mapped = filled(base, list)
 		}
-		op, ok := encIssues(mapped)
-		if !ok {
-			o.Count("skipped:path-element-not-string-or-index")
-			return
+		op, _ := encIssues(mapped)
+		if lastPanic != "" {
+			how += " [a call panicked: " + lastPanic + "]"
+			o.Count("panicked")
 		}
 		o.Emit(op+" # "+how+" via "+variant, obs)
 		o.Count("source:" + strings.SplitN(how, " ", 2)[0])
@@ -658,7 +770,14 @@ func run(c hx.Config) error {
 	}
 
 	// corpus: the shapes of the first sightings
+	probeCfg()
+	o.Count("probed:" + cfgToken)
 	corpus := [][]core.ZodIssue{
+		{mk(core.Custom, []any{-1}, "m1")},
+		{mk(core.Custom, []any{"a", 1.5}, "m1"), mk(core.Custom, []any{"a"}, "m2")},
+		{mk(core.Custom, []any{int64(0)}, "m1"), mk(core.Custom, []any{0}, "m2")},
+		{mk(core.Custom, []any{namedKey("\"a.b\"")}, "m1"), mk(core.Custom, []any{"a.b"}, "m2")},
+		{mk(core.Custom, []any{nil, true, point{1, 2}}, "m1")},
 		{},
 		{mk(core.InvalidUnion, nil, "m1")},
 		{mk(core.InvalidElement, []any{0}, "m1")},
@@ -673,6 +792,22 @@ func run(c hx.Config) error {
 	for _, l := range corpus {
 		emit(l, &gozod.ZodError{Issues: l}, "synth-literal corpus")
 	}
+
+	// a nil *ZodError (what `var ze *gozod.ZodError` is before IsZodError fills it): it has no issues
+	emitNil := func() {
+		lastPanic = ""
+		var nz *gozod.ZodError
+		obs := observe(nz)
+		how := "nil-error"
+		if lastPanic != "" {
+			how += " [a call panicked: " + lastPanic + "]"
+			o.Count("panicked")
+		}
+		o.Emit("c19 "+cfgToken+" nil # "+how+" via default", obs)
+		o.Count("source:nil-error")
+		o.Count("entry:default")
+	}
+	emitNil()
 
 	nSynth, nParse := 6000, 6000
 	if c.Thorough() {
@@ -741,7 +876,13 @@ func nesting(list []core.ZodIssue) int {
 func segClass(el any) string {
 	k, ok := el.(string)
 	if !ok {
-		return "index"
+		if n, isInt := el.(int); isInt {
+			if n < 0 {
+				return "int-negative"
+			}
+			return "index"
+		}
+		return fmt.Sprintf("other-type:%T", el)
 	}
 	switch {
 	case k == "":
